@@ -3,7 +3,8 @@ EXPLANATION = (
     "Decides: the call closure of every function that opens database files for writing (Db::open_paths -> GraphEngine::open -> Pager::open / "
     "Wal::open, vacuum_in_place; the bulk loader only creates files that must not exist yet) reaches an exclusive-lock primitive (File::lock / try_lock, flock / fcntl, an fs2/fs4 "
     "lock_exclusive, or creation of a lock file with create_new). Without one, nothing can refuse or delay a second writer. "
-    "Does not decide the lock's lifetime or cross-platform semantics."
+    "Does not decide the lock's lifetime or cross-platform semantics. C10.2 decides the in-process half: maintenance writers (compaction, close-time "
+    "checkpoint) take every engine-state lock while holding the writer mutex, so their read-modify-write cannot interleave with a write transaction."
 )
 
 OPENERS = [
@@ -38,3 +39,7 @@ def run(ctx):
                    "the database files are opened for writing without any exclusive lock: a second handle (same or other process) "
                    "opens and writes the same files", F.bodies[fn].file, sample={"opener": fn, "closure_size": len(closure)})
     ctx.floor("C10.1", "openers", len(ctx.instances["C10.1"]), 2)
+    # the in-process half of single-writer: maintenance (compaction, close-time checkpoint) is a writer and must not interleave
+    # its read-modify-write with an open write transaction
+    from .c09 import writer_rmw_rule
+    writer_rmw_rule(ctx, "C10.2")
